@@ -34,13 +34,23 @@ Qed.
 Definition reader_domain (img : list byte) : Prop :=
   Forall (fun e => entry_used e = true -> entry_ascii e /\ no_ascii_c0 (slice img) e) (dir (slice img)).
 
+Lemma list_files_sized img : N.of_nat (length img) = IMAGE_SIZE -> list_files img = list_files_disk (slice img).
+Proof.
+  intros H. unfold list_files. rewrite H.
+  replace (IMAGE_SIZE <? IMAGE_SIZE) with false by (symmetry; apply N.ltb_irrefl). reflexivity.
+Qed.
+
+(* the conversion test must unfold [files], never [files_disk]/[slice] (which would normalise 70 chunks) *)
+Local Strategy opaque [files_disk slice list_files_disk].
+Lemma files_unfold img : files img = files_disk (slice img).
+Proof. reflexivity. Qed.
+
 Theorem reads_any_valid_image img fs :
   N.of_nat (length img) = IMAGE_SIZE -> files img = Some fs -> reader_domain img -> list_files img = Ok fs.
 Proof.
-  intros Hl Hf Hd. unfold list_files. rewrite Hl, N.ltb_irrefl.
-  pose proof (slice_dims img Hl) as Hdim.
-  cbv iota.
-  pose proof (list_files_disk_spec (slice img) fs Hdim) as HH.
-  unfold reader_domain in Hd. unfold files in Hf.
-  specialize (HH Hd). specialize (HH Hf). exact HH.
+  intros Hl Hf Hd. rewrite (list_files_sized img Hl). rewrite files_unfold in Hf.
+  apply list_files_disk_spec.
+  - exact (slice_dims img Hl).
+  - exact Hd.
+  - exact Hf.
 Qed.
